@@ -29,9 +29,24 @@ struct Prop {
 
 fn no_extra(_: &RunCfg, _: &mut Extra) {}
 
+macro_rules! prop {
+    ($id:expr, $m:ident) => {
+        Prop { id: $id, clauses: props::$m::clauses, extra: no_extra, rule: props::$m::RULE, assume: props::$m::ASSUME }
+    };
+    ($id:expr, $m:ident, $extra:ident) => {
+        Prop { id: $id, clauses: props::$m::clauses, extra: props::$m::$extra, rule: props::$m::RULE, assume: props::$m::ASSUME }
+    };
+}
+
 fn registry() -> Vec<Prop> {
     vec![
-        Prop { id: "C01", clauses: props::c01::clauses, extra: props::c01::native_ints, rule: props::c01::RULE, assume: props::c01::ASSUME },
+        prop!("C01", c01, native_ints),
+        prop!("C02", c02),
+        prop!("C03", c03, native_ints),
+        prop!("C04", c04),
+        prop!("C05", c05),
+        prop!("C06", c06),
+        // REGISTRY-END
     ]
 }
 
